@@ -12,7 +12,10 @@ dict model in lock step: set (typed value or the string a user would type), dele
 mutation through a fresh read (`$PATH.append`) and through a reference held across launches, plain reads,
 `detype()` at arbitrary points, a caller that edits the mapping `detype()` returned (as prompt/gitstatus.py
 does), swap enter/exit (kwargs / dict, normal or by exception), alias-style overlays (`swap(overlay=d)` and
-later `d[k] = v`), register/deregister, launches seen from a second thread, and the launch itself: the child
+later `d[k] = v`), register/deregister, re-assignment of an ==-equal value with another string form (True / 1 /
+1.0) and of the same, edited object (`p = $X; p.append(..); $X = p`), real 2-3 stage pipelines whose stages carry
+their own `$X=v` prefixes (each stage dumps the environment block it was exec'ed with), launches seen from a
+second thread, and the launch itself: the child
 environment is built exactly the way SubprocSpec.prep_env_subproc builds it (`SubprocSpec(cmd, env=overlay)
 .prep_env_subproc(kw)`), or the way xonsh's other spawners build it (`env.detype()`), and - sampled - the
 helper `venv0` is really spawned with it, or the whole `run_subproc` path is run for real, and what the child
@@ -405,6 +408,12 @@ class History:
                 return sc["layer"][name]
         return self.glob.get(name)
 
+    def effective_below_top(self, name):
+        for sc in reversed(self.scopes[:-1]):
+            if name in sc["layer"]:
+                return sc["layer"][name]
+        return self.glob.get(name)
+
     def is_set(self, name):
         c = self.effective(name)
         return c is not None and c is not MASK
@@ -584,12 +593,48 @@ class History:
         except (ValueError, TypeError):
             return False
         obj = V.decode(kind, op["v"])
+        twin = k in self.glob and self._is_twin(self.glob[k], cell)
         self._do(lambda: self.env.__setitem__(k, obj), "set $%s" % k)
         self.glob[k] = cell
         self.undeleted.discard(k)
+        self.dirty.clear()          # F1 is about edits with *no* assignment / deletion / scope change in between
         self.touch()
         if cell.get("raw"):
             self.labels["set-from-string"] += 1
+        if twin:
+            self.flags.add("equal-valued-reassignment")
+            self.labels["equal-valued-reassignment"] += 1
+
+    @staticmethod
+    def _is_twin(old, new):
+        """new compares == to old as a Python value although its string form differs (True / 1 / 1.0 ...)"""
+        try:
+            a, b = V.dec_num(old["spec"]), V.dec_num(new["spec"])
+            if old["kind"] == new["kind"] == "histsize":
+                a, b = V.dec_num(a[0]), V.dec_num(b[0])
+            elif not (old["kind"] == new["kind"] == "untyped"):
+                return False
+            return isinstance(a, (bool, int, float)) and isinstance(b, (bool, int, float)) and a == b \
+                and type(a) is not type(b)
+        except Exception:  # noqa: BLE001
+            return False
+
+    def op_set_held(self, op):
+        """`p = $X; ...; p.append(..); $X = p` - the very object that is (or was) stored is assigned again."""
+        h = self.held.get(op["slot"])
+        if h is None or self.uoe:
+            return False
+        name, cell, obj = h
+        if not self._writable(name) or self.kind(name) != cell["kind"] or cell.get("raw"):
+            return False
+        self._do(lambda: self.env.__setitem__(name, obj), "set $%s (same object)" % name)
+        if self.glob.get(name) is cell:
+            self.flags.add("same-object-reassignment")
+            self.labels["same-object-reassignment"] += 1
+        self.glob[name] = cell
+        self.undeleted.discard(name)
+        self.dirty.clear()
+        self.touch()
 
     def op_del(self, op):
         k = op["k"]
@@ -600,6 +645,7 @@ class History:
                 return False
             self._do(lambda: self.env.__delitem__(k), "del $%s" % k)
             del self.glob[k]
+            self.dirty.clear()
             self.touch()
         else:
             try:
@@ -621,6 +667,7 @@ class History:
         self._do(lambda: self.env.__setitem__(k, DELETE_VAR), "$%s = DELETE_VAR" % k)
         if k in self.glob:
             del self.glob[k]
+            self.dirty.clear()
             self.touch()
 
     def _mutate(self, kind, obj, cell, m):
@@ -721,6 +768,7 @@ class History:
             return False
         if obj is None:
             obj = self._do(lambda: self.env[name], "read $%s" % name)
+            self.dirty.clear()      # reading a container is xonsh's documented way of keeping the export fresh
         r = self._do(lambda: self._mutate(kind, obj, cell, op["m"]), "in-place %s on $%s" % (op["m"][0], name))
         if r is False:
             return False
@@ -744,12 +792,17 @@ class History:
         if cell.get("raw") and self.in_overlay(name):
             return False
         obj = self._do(lambda: self.env[name], "read $%s" % name)
+        self.dirty.clear()
         self.held[op["slot"]] = (name, cell, obj)
 
     def op_read(self, op):
         if not self.is_set(op["k"]):
             return False
         self._do(lambda: self.env.get(op["k"]), "read $%s" % op["k"])
+        c = self.effective(op["k"])
+        if c["kind"] in V.MUTABLE_KINDS and not (c.get("raw") and self.in_overlay(op["k"])) and \
+                not self.in_overlay(op["k"]):
+            self.dirty.clear()
 
     def op_detype(self, op):
         got = self._do(lambda: self.env.detype(), "detype()")
@@ -809,7 +862,13 @@ class History:
         self._do(cm.__enter__, "swap enter")
         self.scopes.append({"type": "swap", "layer": layer, "cm": cm, "was_set": was_set})
         self.seen_since_scope.clear()
+        self.dirty.clear()
         self.touch()
+        for k, c in layer.items():
+            below = self.effective_below_top(k)
+            if c is not MASK and below is not None and below is not MASK and self._is_twin(below, c):
+                self.flags.add("equal-valued-reassignment")
+                self.labels["equal-valued-swap"] += 1
         if any(c is MASK for c in layer.values()):
             self.labels["swap-with-mask"] += 1
 
@@ -859,6 +918,7 @@ class History:
             self.residue.update(sc["layer"])
             self.local_copy.update(k for k in sc["was_set"] if not self.in_swap(k))
             self.seen_since_scope.clear()
+            self.dirty.clear()
         self.touch()
 
     def op_register(self, op):
@@ -997,6 +1057,54 @@ class History:
         else:
             return False
         self._check_environ(what)
+
+    def op_pipeline(self, op):
+        """A real pipeline of 2-3 external commands through run_subproc, each stage with its own `$X=v` prefix (or
+        none); every stage writes the environment block it was exec'ed with (/proc/<pid>/environ) to a file."""
+        if self.uoe:
+            return False
+        stages = op["stages"]
+        extras, reals, files, cmds, envs = [], [], [], [], []
+        for i, kv in enumerate(stages):
+            extra, real = self._launch_overlay(kv)
+            if any(c is not MASK and c.get("emptylist") for c in (extra or {}).values()):
+                return False
+            extras.append(extra)
+            reals.append(real)
+            f = os.path.join(_state["scratch"], "stage%d.env0" % i)
+            try:
+                os.unlink(f)
+            except OSError:
+                pass
+            files.append(f)
+            script = '/bin/cat /proc/$$/environ > "$0"; ' + ("" if i == 0 else "/bin/cat > /dev/null; ") + "echo s%d" % i
+            if cmds:
+                cmds.append("|")
+                envs.append(None)
+            cmds.append(["/bin/sh", "-c", script, f])
+            envs.append(real)
+        what = "pipeline of %d stages, prefixes %s" % (len(stages), [sorted(e) if e else None for e in extras])
+        merged = {}
+        for e in extras:
+            merged.update(e or {})
+        self._note_launch("pipeline", merged or None)
+        if any(extras[1:]):
+            self.labels["pipeline-prefix-on-later-stage"] += 1
+        self._do(lambda: self.XSH.subproc_captured_stdout(*cmds, envs=envs), what)
+        for i, f in enumerate(files):
+            try:
+                with open(f, "rb") as fh:
+                    got = _parse_env0(fh.read().decode("utf-8", "surrogateescape"))
+            except OSError:
+                self.bad("stage-not-run", "%s: stage %d left no environment dump" % (what, i))
+            self.observe(got, "pipeline stage %d/%d%s" % (
+                i + 1, len(stages), " with $%s=... prefix" % ",".join(sorted(extras[i])) if extras[i] else ""),
+                extras[i], inject={"XONSH_CAPTURE_ALWAYS": "1"})
+            self.labels["real-child-spawned"] += 1
+        self.last_got = None
+        for e in extras:
+            self._after_prefix(e)
+        self._after_prefix({"XONSH_CAPTURE_ALWAYS": None})
 
     def _after_prefix(self, extra):
         # a per-command overlay is a swap scope around the spawn
@@ -1365,6 +1473,96 @@ def make_machine():
             if kv:
                 self.do({"op": "launch", "how": how, "overlay": kv})
 
+        def twins_of(self, cell):
+            spec = V.dec_num(cell["spec"])
+            if cell["kind"] == "histsize" and spec[1] == "s":
+                n = V.dec_num(spec[0])
+                if isinstance(n, int):
+                    return [[float(n), "s"]]
+                if isinstance(n, float) and n == int(n) and abs(n) < 2 ** 53:
+                    return [[int(n), "s"]]
+                return []
+            if cell["kind"] != "untyped" or not isinstance(spec, (bool, int, float)):
+                return []
+            if isinstance(spec, float) and (spec != spec or spec in (float("inf"), float("-inf")) or spec != int(spec)):
+                return []
+            out = [x for x in (int(spec), float(spec)) if type(x) is not type(spec)]
+            if spec in (0, 1):
+                out += [x for x in (bool(spec),) if type(x) is not type(spec)]
+            return out
+
+        @rule(data=st.data(), scoped=st.sampled_from([False, False, True]), how=st.sampled_from(["detype", "detype", "spec"]))
+        def equal_reassign(self, data, scoped, how):
+            """assign (or swap in) a value that is == to the stored one but has another string form, with a mapping
+            freshly cached before and a launch right after"""
+            h = self.h
+            cands = [n for n in sorted(h.glob) if h._writable(n) and not h.in_overlay(n) and self.twins_of(h.glob[n])]
+            if not cands:
+                name = data.draw(st.sampled_from(["FOO", "BAR", "XONSH_HISTORY_SIZE"]))
+                if not h._writable(name) or h.in_overlay(name):
+                    return
+                v = data.draw(st.sampled_from([[5, "s"], [0, "s"]])) if name == "XONSH_HISTORY_SIZE" else \
+                    data.draw(st.sampled_from([True, False, 1, 0, 7, 1.0, 0.0]))
+                self.do({"op": "set", "k": name, "v": v})
+            else:
+                name = data.draw(st.sampled_from(cands))
+            if name not in h.glob:
+                return
+            tw = self.twins_of(h.glob[name])
+            if not tw:
+                return
+            v = V.enc_num(data.draw(st.sampled_from(tw))) if not isinstance(tw[0], list) else data.draw(st.sampled_from(tw))
+            self.do({"op": "detype"})
+            if scoped:
+                self.do({"op": "swap_in", "kv": {name: v}, "style": "kwargs"})
+            else:
+                self.do({"op": "set", "k": name, "v": v})
+            self.do({"op": "launch", "how": how})
+
+        @rule(s=slot)
+        def set_held(self, s):
+            self.do({"op": "set_held", "slot": s})
+
+        @rule(s=slot, data=st.data(), how=st.sampled_from(["detype", "detype", "spec"]))
+        def edit_and_reassign(self, s, data, how):
+            """p = $X; <launch>; p.append(...); $X = p; <launch>"""
+            cands = self.mutable_now()
+            if not cands:
+                return
+            name = data.draw(st.sampled_from(cands))
+            self.do({"op": "hold", "k": name, "slot": s})
+            hd = self.h.held.get(s)
+            if hd is None or hd[0] != name:
+                return
+            self.do({"op": "launch", "how": how})
+            m = mutation(data, hd[1]["kind"])
+            if m is None:
+                return
+            self.do({"op": "mut", "via": "held", "slot": s, "m": m})
+            self.do({"op": "set_held", "slot": s})
+            self.do({"op": "launch", "how": how})
+
+        @rule(n=st.sampled_from([2, 2, 3]), go=st.sampled_from([True, False, False, False]), data=st.data())
+        def pipeline(self, n, go, data):
+            if not go:          # (a real pipeline costs 30-100 ms)
+                self.do({"op": "launch", "how": "spec"})
+                return
+            stages = []
+            for i in range(n):
+                kv = {}
+                if data.draw(st.sampled_from([True, True, False])):
+                    for nm in data.draw(st.lists(any_name, min_size=1, max_size=2, unique=True)):
+                        if self.h.kind(nm) is None:
+                            continue
+                        if data.draw(st.sampled_from([False, False, False, True])):
+                            kv[nm] = {"mask": 1}
+                        else:
+                            v = value(data, self.h, nm)
+                            if v is not NOVAL:
+                                kv[nm] = v
+                stages.append(kv or None)
+            self.do({"op": "pipeline", "stages": stages})
+
         @rule(how=st.sampled_from(["detype", "detype", "spec"]))
         def xthread(self, how):
             self.do({"op": "xthread", "how": how})
@@ -1468,7 +1666,9 @@ def main(run):
             k: round(h.get("B:" + k, 0) / launches, 3) for k in (
                 "launch-after-change", "launch-after-fresh-mutation", "launch-after-held-mutation",
                 "launch-inside-swap", "launch-inside-alias-overlay", "launch-with-per-command-overlay",
-                "launch-with-per-command-mask", "real-child-spawned", "launch:full", "launch:second-thread")}
+                "launch-with-per-command-mask", "real-child-spawned", "launch:full", "launch:pipeline",
+                "launch:second-thread", "launch-after-equal-valued-reassignment",
+                "launch-after-same-object-reassignment")}
     run.extra["side_effect_converters_exercised_for_real"] = sorted(
         k.split(":")[-1] for k in h if k.startswith("A:side-effect-converter:"))
     if not run.stats.failures:
@@ -1477,7 +1677,9 @@ def main(run):
                   ("B:launch-with-per-command-overlay", 20), ("B:launch-with-per-command-mask", 5),
                   ("B:real-child-spawned", 10), ("B:launch:full", 10), ("B:launch:second-thread", 20),
                   ("B:second-thread-launch-while-main-in-swap", 5), ("B:os.environ-compared", 10),
-                  ("B:op:register", 5), ("B:swap-with-mask", 5), ("B:set-from-string", 10)]
+                  ("B:op:register", 5), ("B:swap-with-mask", 5), ("B:set-from-string", 10),
+                  ("B:launch:pipeline", 10), ("B:pipeline-prefix-on-later-stage", 10),
+                  ("B:launch-after-equal-valued-reassignment", 20), ("B:launch-after-same-object-reassignment", 10)]
         low = ["%s=%d<%d" % (k, h.get(k, 0), v) for k, v in floors if h.get(k, 0) < v]
         kinds_seen = {k.split(":")[-1] for k in h if k.startswith("A:kind:")}
         if len(kinds_seen) < 25:
